@@ -359,3 +359,11 @@ Example restore_now :
      = [true; true; true; true; true; false; false]
   /\ tuple_flags_ok (fst (run cfg_all (h_restore ++ [OCopy 1; ORestore 1 RShallow; ORestore 1 RDatabase]) init0)) = true.
 Proof. repeat split; vm_compute; reflexivity. Qed.
+
+(* delete a middle positional item, rebuild from the database form, append: the new item gets a fresh key (acffd7c) *)
+Example db_restore_then_append :
+  snd (run cfg_all [ONew KColl [("0", VPrior 0); ("1", VPrior 1); ("2", VPrior 2)] 3; ODel 0 "1"; ORestore 0 RDatabase;
+                    OAppend 1 (VPrior 3); OQuery 1 QPaths; OQuery 1 QCount] init0)
+  = [Ok AUnit; Ok AUnit; Ok AUnit; Ok AUnit;
+     Ok (AItems [(["0"], LPrior 0); (["2"], LPrior 2); (["3"], LPrior 3)]); Ok (ANat 3)].
+Proof. vm_compute. reflexivity. Qed.
